@@ -10,3 +10,4 @@ def run(c):
     if A.validate_assembly_concrete(c):
         ct = A.conv_table_for([p for w in A.WRAPPERS_QUICK for p in w])
         A.obl_quote_pair(c, ct, thorough=(c.tier == "thorough"), budget_s=1500)
+    A.obl_fixed_assembly(c, thorough=(c.tier == "thorough"), budget_s=1200, mode="quote_pair")
